@@ -1,10 +1,12 @@
-(** C11 — model, part 2: the two caches that are not keyed by a request to an
+(** C11 — model, part 2: the four caches that are not keyed by a request to an
     endpoint of a pipeline mechanism.
 
       oauth2/clientcredentials/clientcredentials.go   calculateCacheKey, Token
       finalizers/jwt_finalizer.go, jwt_signer.go      calculateCacheKey, jwtSigner.Hash, Execute, OnChanged (reload)
+      httpcache/round_tripper.go                      cacheKey, RoundTrip (RFC 7234 cache; methods GET, HEAD, POST)
+      authenticators/jwt_authenticator.go             calculateCacheKey, getKey, validateJWK (key cache; literal JWKS endpoint headers)
 
-    Both are instances of the memo-table machine of Proofs.v ([aexec]): a step
+    All are instances of the memo-table machine of Proofs.v ([aexec]): a step
     is the key it looks up and the result of a fresh evaluation at that moment. *)
 From HV Require Export Base.Prelude C11.Model.
 Local Open Scope string_scope.
